@@ -85,6 +85,9 @@ pub enum POp {
     Tick,
     /// the leader disappears; the follower is stopped (shutdown sequence) and restarted as leader
     Promote,
+    /// the leader disappears and the follower node is lost abruptly as well (no shutdown sequence);
+    /// it is restarted as leader from what its last flush wrote
+    Kill,
 }
 
 pub struct PromoScenario {
@@ -117,6 +120,9 @@ impl Scenario for PromoScenario {
             let mut violation: Option<String> = None;
             let mut known: Vec<(String, String)> = vec![];
             let mut prejoin_regs: BTreeMap<String, Value> = BTreeMap::new();
+            // at the follower's latest flush: (its user keys, the leader's content, pre-join registrations)
+            type Cut = (BTreeMap<String, Value>, BTreeMap<String, Value>, BTreeMap<String, Value>);
+            let mut last_flush: Option<Cut> = None;
             for (i, o) in history.iter().enumerate() {
                 let last = i + 1 == history.len();
                 if promoted {
@@ -187,6 +193,7 @@ impl Scenario for PromoScenario {
                                 if let Err(e) = worterbuch::verif::flush(&mut fwb).await {
                                     violation = Some(format!("flush after initial sync failed: {e}"));
                                 }
+                                last_flush = Some((user(&content_of(&fwb)), content_of(&leader.wb), prejoin_regs.clone()));
                                 follower_node = Some(Follower { wb: fwb, rx: f.rx, applied: 0 });
                             }
                             Err(e) => violation = Some(e),
@@ -204,9 +211,11 @@ impl Scenario for PromoScenario {
                         if let Err(e) = worterbuch::verif::flush(&mut f.wb).await {
                             violation = Some(format!("periodic flush failed: {e}"));
                         }
+                        last_flush = Some((user(&content_of(&f.wb)), content_of(&leader.wb), prejoin_regs.clone()));
                         class = "tick".into();
                     }
-                    POp::Promote => {
+                    pop @ (POp::Promote | POp::Kill) => {
+                        let graceful = matches!(pop, POp::Promote);
                         let Some(mut f) = follower_node.take() else {
                             if last {
                                 subsys.request_global_shutdown();
@@ -215,10 +224,13 @@ impl Scenario for PromoScenario {
                             panic!("MACHINERY: promote without follower in prefix");
                         };
                         promoted = true;
-                        class = "promote".into();
-                        let received = user(&content_of(&f.wb));
+                        class = if graceful { "promote".into() } else { "kill".into() };
                         // every client session died with the old leader
-                        let lc = content_of(&leader.wb);
+                        let (received, lc, prejoin_regs) = if graceful {
+                            (user(&content_of(&f.wb)), content_of(&leader.wb), prejoin_regs.clone())
+                        } else {
+                            last_flush.clone().expect("MACHINERY: a joined follower has flushed")
+                        };
                         let mut gg: Vec<String> = vec![];
                         let mut lw: Vec<(String, Value)> = vec![];
                         let mut gg_pre: Vec<String> = vec![];
@@ -237,7 +249,7 @@ impl Scenario for PromoScenario {
                             }
                         }
                         // the orchestrator stops the follower (stdin close -> shutdown sequence)
-                        if fcfg.use_persistence {
+                        if fcfg.use_persistence && graceful {
                             worterbuch::verif::apply_all_grave_goods_and_last_wills(&mut f.wb).await;
                             if let Err(e) = worterbuch::verif::flush(&mut f.wb).await {
                                 violation = Some(format!("shutdown flush failed: {e}"));
@@ -320,12 +332,14 @@ impl Scenario for PromoScenario {
             for _ in 0..8 {
                 tokio::task::yield_now().await;
             }
+            // (the cut of the follower's latest flush is part of the state: a tick changes nothing else)
             let fp = hash_str(&format!(
-                "{}|{:?}|{}|{:?}",
+                "{}|{:?}|{}|{:?}|{:?}",
                 worterbuch::verif::snapshot(&leader.wb),
                 follower_node.as_ref().map(|f| content_of(&f.wb)),
                 promoted,
-                prejoin_regs
+                prejoin_regs,
+                last_flush
             ));
             Some(StepOut {
                 fingerprint: if promoted { hash_str(&format!("{history:?}")) } else { fp },
@@ -348,7 +362,7 @@ fn sys_key(c: C, leaf: &str) -> String {
 
 pub fn scenario(open: BTreeSet<String>) -> PromoScenario {
     let s = |x: &str| x.to_owned();
-    let mut ops = vec![POp::Join, POp::Tick, POp::Promote];
+    let mut ops = vec![POp::Join, POp::Tick, POp::Promote, POp::Kill];
     ops.push(POp::Api(Op::Connect(0)));
     ops.push(POp::Api(Op::Connect(1)));
     ops.push(POp::Api(Op::Disconnect(0)));
